@@ -231,7 +231,110 @@ def work_defpair(item):
     return viol, counts, [], None, [], None
 
 
+# ---------------------------------------------------------------------------------------------
+# navigation in every language: navigate.yaml is a translated copy per language, and where a command leads does not depend on the
+# language - so every command of the navigation vocabulary, issued along one fixed script over a table, a formula with fraction, scripts
+# and root, and a sum, must succeed where it succeeds in English and rest on the node it rests on in English
+
+def _ids(t):
+    for k, (_, n) in enumerate(t.walk()):
+        n.attrs["id"] = f"n{k}"
+    return t
+
+
+def nav_exprs():
+    from terms import mi, mn, mo, row, el
+    cell = lambda x: el("mtd", x)
+    matrix = row(mi("M"), mo("="), row(mo("("), el("mtable", el("mtr", cell(mi("a")), cell(mi("b"))), el("mtr", cell(mi("c")), cell(row(mi("d"), mo("+"), mn("1"))))), mo(")")))
+    formula = row(el("msup", mi("x"), mn("2")), mo("+"), el("mfrac", mi("a"), row(mi("b"), mo("-"), mn("3"))), mo("-"), el("msqrt", el("msub", mi("y"), mn("1"))))
+    total = row(mi("f"), mo("("), mi("x"), mo(")"), mo("="), el("munderover", mo("\u2211"), row(mi("i"), mo("="), mn("1")), mi("n")), mi("i"))
+    return [("matrix", _ids(matrix)), ("formula", _ids(formula)), ("sum", _ids(total))]
+
+
+NAV_SCRIPT = ["ZoomIn", "ZoomIn", "MoveNext", "MoveNext", "ZoomIn", "ZoomIn", "ZoomIn", "MoveCellNext", "MoveCellDown", "MoveCellPrevious", "MoveCellUp", "ReadCellCurrent", "MoveColumnEnd",
+              "MoveColumnStart", "MoveLineEnd", "MoveLineStart", "MoveCellDown", "ZoomIn", "MoveCellUp", "WhereAmI", "WhereAmIAll", "ZoomOut", "MoveNext", "MovePrevious", "ZoomOutAll", "ZoomInAll",
+              "MoveCellDown", "MoveCellNext", "MoveCellUp", "MoveCellPrevious", "MoveLastLocation", "DescribeCurrent", "DescribeNext", "DescribePrevious", "ReadNext", "ReadPrevious",
+              "ReadCurrent", "ToggleZoomLockDown", "MoveNext", "ToggleZoomLockUp", "ToggleZoomLockUp", "MovePrevious", "ToggleSpeakMode", "MoveNext",
+              "MoveEnd", "MoveStart", "MoveNext", "MoveNext", "ZoomIn", "MoveNext", "ZoomOut", "MovePrevious"]
+NAV_MODES = ["Enhanced", "Simple", "Character"]
+NAV_VERBS = ["Terse", "Medium", "Verbose"]
+
+
+def navlang_observe(mc, lang, ename_, mode_, verbs):
+    setup = [["rules_dir", mcx.RULES], ["pref", "TTS", "none"], ["pref", "Language", lang]]
+    cases, meta = [], []
+    for ename, t in nav_exprs():
+        if ename != ename_:
+            continue
+        for mode in [mode_]:
+            for nv in verbs:
+                ops = [["pref", "NavMode", mode], ["pref", "NavVerbosity", nv], ["mathml", terms.doc(t)]]
+                for c in NAV_SCRIPT:
+                    ops += [["nav", c], ["navid"]]
+                cases.append(ops)
+                meta.append((ename, mode, nv))
+    _, res = mc.run_cases(setup, cases, fresh=True)
+    out = {}
+    for m, r in zip(meta, res):
+        steps = []
+        for k in range(len(NAV_SCRIPT)):
+            a, b_ = r[3 + 2 * k], r[4 + 2 * k]
+            steps.append((a[0], bool(a[0] == "o" and str(val(a)).strip()), norm_ids(b_[:2]) if b_[0] == "o" else [b_[0]], short(a, 160)))
+        out[m] = steps
+    return out
+
+
+_NAV_EN = {}
+
+
+def val_err(step):
+    try:
+        return json.loads(step[3])[1]
+    except Exception:
+        return step[3]
+
+
+def work_navlang(item):
+    lang, ename_, mode_, verbs = item
+    mc = mcx.worker_mc()
+    rk = (ename_, mode_, tuple(verbs))
+    if rk not in _NAV_EN:
+        _NAV_EN[rk] = navlang_observe(mc, "en", ename_, mode_, verbs)
+    ref = _NAV_EN[rk]
+    got = ref if lang == "en" else navlang_observe(mc, lang, ename_, mode_, verbs)
+    viol, counts, nontriv = [], {"evaluations": 0, "nav_language_steps": 0}, []
+    for m, steps in got.items():
+        ename, mode, nv = m
+        toggled = False
+        for k, (st, spoken, where, raw) in enumerate(steps):
+            counts["evaluations"] += 1
+            if k and NAV_SCRIPT[k - 1] == "ToggleSpeakMode":
+                toggled = not toggled
+            est, espoken, ewhere, eraw = ref[m][k]
+            if est in ("p", "abort", "timeout") or st in ("p", "abort", "timeout"):
+                break           # C08's business; what follows in this session is not comparable
+            counts["nav_language_steps"] += 1
+            nontriv.append(hash((lang, m, k, raw)))
+            cmd = NAV_SCRIPT[k]
+            replay = {"kind": "navlang", "lang": lang, "expr": ename, "mode": mode, "nav_verbosity": nv, "step": k, "command": cmd}
+            what = None
+            if st != "o":
+                what = ("fails", f"fails with {raw}" + (f" (English: {eraw})" if lang != "en" else ""))
+            elif est == "o" and espoken and not spoken:
+                what = ("silent", f"says nothing although English says {eraw}")
+            elif where != ewhere:
+                what = ("lands-elsewhere", f"leaves the position at {where}, English at {ewhere}")
+            if what:
+                ec = re.sub(r"[^A-Za-z_ ]", "", str(val_err(steps[k])))[:40].strip() if what[0] == "fails" else ""
+                viol.append((f"C15|nav-lang|{lang}|{cmd}|{what[0]}|{ec}|{'describing' if toggled else 'reading'}", f"[{lang}/{mode}/{nv}] {ename}: step {k} {cmd} {what[1]}", replay))
+                if what[0] == "lands-elsewhere":
+                    break       # later steps start from a different position
+    return viol, counts, nontriv, None, [], None
+
+
 def _dispatch(job):
+    if job[0] == "N":
+        return work_navlang(job[1:])
     if job[0] == "D":
         return work_defpair(job[1:])
     return work_walk(job[1:]) if job[0] == "W" else work(job[1:])
@@ -256,6 +359,13 @@ def confirm(replay, verbose=False):
     old = mcx._worker_mc
     mcx._worker_mc = mc
     try:
+        if replay["kind"] == "navlang":
+            _NAV_EN.clear()
+            v = [x for x in work_navlang((replay["lang"], replay["expr"], replay["mode"], [replay["nav_verbosity"]]))[0] if x[2]["command"] == replay["command"]]
+            if verbose:
+                for k, w, _ in v:
+                    print(" ", k, "—", w)
+            return {k for k, _, _ in v}
         if replay["kind"] == "defpair":
             shared, doms = def_domains()
             v = work_defpair((replay["a"], replay["b"], shared, doms))[0]
@@ -365,6 +475,16 @@ def main(tier):
         fresh[r[5]] = r[3]
         mcx._worker_mc.close()
         mcx._worker_mc = None
+    nav_langs = list(lattice.languages())
+    run.count("navigation_languages", len(nav_langs))
+    run.count("navigation_script_steps", len(NAV_SCRIPT))
+    verbs = NAV_VERBS if tier == "thorough" else ["Terse", "Verbose"]
+    njobs = [("N", l, e, m, verbs) for e in ("matrix", "formula", "sum") for m in NAV_MODES for l in nav_langs]
+    for viol, counts, nontriv, _, _, _ in mcx.pmap(_dispatch, njobs):
+        run.merge_violations(viol)
+        run.merge_counts(counts)
+        for h in nontriv:
+            run.nontriv(h)
     wjobs = [("W", order, small, fresh), ("W", order[::-1], small, fresh), ("W", order[1::2] + order[::2], small, fresh)]
     shared, doms = def_domains()
     run.count("definition_domains", len(doms))
